@@ -96,3 +96,11 @@ package codec
 //@ func (*Codec).LegacyUnmarshalBinaryBare
 //@   trusted external codec (amino reflection): writes only through the pointer argument
 //@   modifies heap
+
+// validator splitting is active from its scheduled height on (and under the other two escapes)
+//@ func (*Codec).IsAfterValidatorSplitUpgrade
+//@   props C37,C22
+//@   panics_never
+//@   modifies nothing
+//@   ensures [from-height] height >= 45353 ==> result
+//@   ensures [only] result ==> height >= 45353 || height >= global(UpgradeHeight) || global(TestMode) <= 0 - 2
